@@ -592,6 +592,7 @@ class MultifileIngest(AbstractTraceIngest):
                 continue
             subdir, fpat = '/'.join(expanded.split('/')[:-1]), expanded.split('/')[-1]
             aiulog.log(aiulog.DEBUG, "Opening path:", pathlib.Path(subdir), "Pattern:", fpat)
-            flist += [f'{x}' for x in list(pathlib.Path(subdir).glob(fpat))]
+            # directory listing order is an accident of the file system: make the result a function of the names
+            flist += sorted(f'{x}' for x in pathlib.Path(subdir).glob(fpat))
         aiulog.log(aiulog.INFO, "Reading files:", flist)
         return flist
